@@ -163,9 +163,9 @@ pub fn prop() -> Prop {
             "function-call nesting <= 3 and bracket/parenthesis nesting <= 32 (deeper inputs belong to C08)",
         ],
         subs: vec![
-            Sub { name: "random-sentences", kind: Kind::Random { f: random_sentences, quick: 40_000, thorough: 3_000_000, len: 600 } },
-            Sub { name: "random-doc-guided", kind: Kind::Random { f: random_doc_guided, quick: 16_000, thorough: 1_000_000, len: 500 } },
-            Sub { name: "random-mutants-still-valid", kind: Kind::Random { f: random_mutants_still_valid, quick: 40_000, thorough: 2_000_000, len: 600 } },
+            Sub { name: "random-sentences", kind: Kind::Random { f: random_sentences, quick: 160_000, thorough: 3_200_000, len: 600 } },
+            Sub { name: "random-doc-guided", kind: Kind::Random { f: random_doc_guided, quick: 64_000, thorough: 1_280_000, len: 500 } },
+            Sub { name: "random-mutants-still-valid", kind: Kind::Random { f: random_mutants_still_valid, quick: 160_000, thorough: 3_200_000, len: 600 } },
         ],
         direct: Some(direct),
         selftest: Some(crate::rfc::selftest),
